@@ -233,11 +233,11 @@ PROPS["C08"] = {
     "modes": [{"name": "", "runs": {"quick": 2200, "thorough": 60000}, "chunk": 100},
               {"name": "batch-order", "runs": {"quick": 2500, "thorough": 80000}, "chunk": 250}],
     "rule": ("mode '' (tier S): one run = a generated (config, store) as in C01 (limits non-binding) and a tuple under test (the generated query, a stored relationship, an unknown namespace, an unknown subject-set namespace, arbitrary unicode object) with max-depth absent / 0 / -1 / huge; "
-             "the engine decision is compared with REST GET and POST check (status-mirroring: 200 <=> allowed, 403 <=> denied; and always-200), gRPC Check, and with the entry of REST and gRPC batches that carry the tuple at a tape-chosen index among valid, no-subject, unknown-namespace and duplicate entries "
+             "the engine decision is compared with REST GET and POST check (status-mirroring: 200 <=> allowed, 403 <=> denied; and always-200), gRPC Check, and with the entry of REST and gRPC batches that carry the tuple at a tape-chosen index among valid, no-subject, unknown-namespace, duplicate and 'evil twin' entries (a different relationship with the same textual rendering: a subject id spelled like a subject set) "
              "(results in request order, one per tuple, a bad entry affects only its own result; over-limit batches are client errors). "
              "mode 'batch-order' (tier E): BatchCheck of 2-8 distinct queries with individually known reference answers inside a synctest bubble, parallelisation limit 1..6, 3/10 tape-chosen release orders of the workers' storage calls: results[i] must be the answer for tuples[i]. "
              "non-trivial = the reference derivation needs a hop or rewrite (batch-order: the batch mixes allowed and denied entries); distinct = hash of (config, tuples, query)."),
-    "probes": ["engine_allowed", "engine_denied", "probe_unknown_namespace", "probe_mixed_batch", "probe_batch_over_limit", "probe_mixed_answers", "probe_workers_in_flight"],
+    "probes": ["engine_allowed", "engine_denied", "probe_unknown_namespace", "probe_evil_twin_entries", "probe_mixed_batch", "probe_batch_over_limit", "probe_mixed_answers", "probe_workers_in_flight"],
     "real": REAL_S + ["tier E part: real check.Engine.BatchCheck (errgroup workers) scheduled at the storage seam"], "stub": STUB_S,
     "fault_kinds": {},
     "assumptions": ["'never allowed' for an unknown namespace accepts both a denied answer and a client error; the transports need not agree on how they refuse"],
